@@ -1,6 +1,6 @@
 """Configuration of ./check C12 (see cfg/README)."""
 
-PROP = {'drive': ['Metrics'], 'modules': ['SfntV.Props.C12'],
+PROP = {'drive': ['Metrics'], 'harness_files': ['area_metrics.go', 'area_metrics_os2.go'], 'modules': ['SfntV.Props.C12'],
  'required_theorems': ['C12_hmtx_roundtrip',
                        'C12_hmtx_encode_ok',
                        'C12_hmtx_roundtrip_any_k',
@@ -12,7 +12,15 @@ PROP = {'drive': ['Metrics'], 'modules': ['SfntV.Props.C12'],
                        'C12_head_roundtrip',
                        'C12_maxp_roundtrip',
                        'C12_post_header_roundtrip',
-                       'C12_caret_partial'],
+                       'C12_caret_partial',
+                       'C12_os2_roundtrip',
+                       'C12_os2_domain_forced',
+                       'C12_fontbbox_union',
+                       'C12_fontbbox_needs_wellformed',
+                       'C12_avgwidth_def',
+                       'C12_charrange_def',
+                       'C12_fixedpitch_def',
+                       'C12_winmetrics_def'],
  'areas': [('metrics', 400, 6000)],
  'rule': 'distinct case lines (table field values / table bytes / whole-font glyph lists); non-trivial = at '
          'least two glyphs, or any header-table case',
@@ -21,13 +29,11 @@ PROP = {'drive': ['Metrics'], 'modules': ['SfntV.Props.C12'],
              '(stream metrics.caret); the statement C12_caret_full (result = pair in lowest terms, same '
              'direction) is a Lean definition, not yet a theorem; the float evaluation itself is not '
              'proved; the tie class rise=0, run<0 (sign of a float -0 decides) is excluded from the comparison',
-             'OS/2 codec round trip (C12_os2_roundtrip) not yet modelled; OS/2 derived fields '
-             '(xAvgCharWidth, usFirst/LastCharIndex, usWinAscent/Descent) are checked only by the D stream '
-             'metrics.dfont on fonts written by (*sfnt.Font).Write',
-             'FontBBox union, average width, char range, isFixedPitch: definitions in Spec/Metrics.lean are '
-             'evaluated on real Write output (D stream); the writer-side Go functions '
-             '(font.go FontBBox/IsFixedPitch, write.go makeOS2) have no Lean model yet, so there are no '
-             'theorems fontbbox_union / avgwidth_def / charrange_def / fixedpitch_def',
+             'writer-side derivations are modelled for integral widths (glyf fonts, CFF fonts with integral '
+             'widths); CFF fonts with fractional widths go through float comparisons (w > 0, |width-w| >= 0.5) '
+             'and int() truncation in makeOS2/makeHmtx/IsFixedPitch, which are not modelled',
+             'the decoding of the installed cmap (so that CodeRange ranges over exactly the mapped codes) is '
+             "C09's business; codes mapped to glyph 0 are avoided by the generators",
              'PDF-unit queries (WidthsPDF, GlyphBBoxPDF, FontBBoxPDF) use floats and are not covered',
              'post version 2.0 (glyph names) belongs to C14; the model covers versions 1.0/3.0/4.0'],
  'modelled_not_verified': ['encoding/binary.Read/Write of fixed-size structs re-implemented in Lean '
@@ -41,7 +47,13 @@ PROP = {'drive': ['Metrics'], 'modules': ['SfntV.Props.C12'],
                  'Dom hhea_derived: lsb = xMin on glyphs with contours (always true when Info.LSB is nil, '
                  'as in (*sfnt.Font).Write); outside it the code ignores lsb in minRightSideBearing / '
                  'xMaxExtent (known finding C12-rsb-ignores-lsb)',
-                 'Dom time: |Unix seconds| <= 2^62']}
+                 'Dom time: |Unix seconds| <= 2^62',
+                 'Dom OS/2 (Os2Dom): IsRegular excludes bold/italic; vendor id of length 4; xHeight, capHeight >= 0; '
+                 'Unicode-range bit 57 equals (last char index = 0xFFFF); permission in {install, edit, view, '
+                 'restricted}; each is proved to be forced by the codec (C12_os2_domain_forced)',
+                 'Dom FontBBox: glyph boxes are boxes (xMin <= xMax, yMin <= yMax); with inverted boxes '
+                 'Rect16.Extend can restart the union (C12_fontbbox_needs_wellformed)',
+                 'Dom win metrics: yMin > -32768']}
 
 LEVEL = {'text': 'Proof: for every width vector and bearing vector (every length of constant tail, every '
          'admissible numberOfHMetrics) the model of hmtx.Decode inverts the model of (*hmtx.Info).Encode; '
@@ -50,7 +62,9 @@ LEVEL = {'text': 'Proof: for every width vector and bearing vector (every length
          'the repair of an int16 overflow found here); maxp round-trips; '
          'head.Read inverts head.Encode on the whole field domain with timestamps to the second (the '
          '1904 epoch itself is proved to be lost: it reads back as the zero time); post header fields '
-         'round-trip. Tied to the Go code by byte-exact correspondence of encoders, value/error-class '
+         'round-trip; os2.Read inverts os2.Encode on its explicit domain (each side condition proved '
+         'forced); the writer-side derivations (FontBBox, average width, first/last char index, win '
+         'ascent/descent, IsFixedPitch) are proved equal to spec folds. Tied to the Go code by byte-exact correspondence of encoders, value/error-class '
          'correspondence of decoders on generated and mutated bytes, and by recomputing every derived '
          'field of tables written by the real (*sfnt.Font).Write with independent spec folds.',
  'note': 'Trusted: Lean kernel + 3 standard axioms; hand-written models mirror the Go code as checked by sampled '
